@@ -147,7 +147,6 @@ def props_settle(E, res):
         P.append(('the only value leaving the market while settling goes to the burnt-funds actor', b_and(s.to.proto == 0, s.to.key == 99, zv(s.method) == 0)))
     sent = sum(s.value for s in burns) if burns else 0
     P.append(('every amount slashed from timed-out proposals in the batch is burnt: nothing is stranded in the market actor', sent == total))
-    P.append(('at most one burn per batch', len(burns) <= 1))
     return P
 
 
